@@ -13,7 +13,7 @@ SRC_DEPS = {"Overlaps": ["Overlaps"], "Intersection": ["Intersection"], "Extend"
 SRC_MODULES = [T + "Src." + n for n in SRC_DEPS]
 CFG = {
     "id": "C04",
-    "lean_modules": ["GeomV.C04.Proofs", "GeomV.C04.ProofsNaN", "GeomV.C04.ProofsMore"] + TIE_MODULES + SRC_MODULES,
+    "lean_modules": ["GeomV.C04.Proofs", "GeomV.C04.ProofsNaN", "GeomV.C04.ProofsMore", "GeomV.C04.ProofsNil"] + TIE_MODULES + SRC_MODULES,
     "exe": "geomv_c04",
     "go_cmd": "c04",
     "stages": ["go:gen", "go:impl", "lean:judge"],
@@ -36,7 +36,10 @@ CFG = {
         # outside the hypotheses: Len()/Bounds() panic exactly when a member is nil (nil dereference, the only possible
         # fault); the first call beyond Len() (Point: itself again; *Bounds without points: its Min corner; *Bounds with
         # points: "out of bounds"; every other type incl. collections: index out of range)
-        "C04_len_fault_iff", "C04_bounds_fault_iff", "C04_pointsOf_nil", "C04_points_exhausted",
+        "C04_len_fault_iff", "C04_bounds_fault_iff", "C04_pointsOf_nil", "C04_points_exhausted", "C04_point_forever",
+        # Points() of a collection pre ++ m :: post with pre nil-free and m (containing) a nil: the first |vertices of pre| calls
+        # return those vertices in order; construction + one call more panics with a nil dereference
+        "C04_nil_points_prefix", "C04_nil_points_fault",
         # the executed coordinate type is an instance of the theorems
         "C04_exec", "FKey.instances_agree",
         # T1: definitions regenerated from bounds.go / point.go of the tree under test = the model's (rfl)
@@ -177,7 +180,20 @@ def pregen(check):
         bt = [n for n in TIES if T + "Ties." + n in failed and n not in bad_ties]
         bad = [T + "Ties." + n for n in bt]
         bad += [T + "Src." + sname for sname, deps in SRC_DEPS.items()
-                if T + "Src." + sname in mods and (T + "Src." + sname in failed or any(d in bt for d in deps))]
+                if T + "Src." + sname in mods and (T + "Src." + sname in failed or any(d in bt or d in bad_ties for d in deps))]
+        # modules that import a broken one (directly or not) cannot be built either
+        def imports(mod):
+            try:
+                txt = open(os.path.join(vcheck.LEAN, *mod.split(".")) + ".lean").read()
+            except OSError:
+                return []
+            return re.findall(r"^import (GeomV\.C04\.(?:Ties|Src)\.\S+)", txt, flags=re.M)
+        changed = True
+        while changed:
+            changed = False
+            for m_ in mods:
+                if m_ not in bad and m_ not in bad_all and any(i in bad or i in bad_all for i in imports(m_)):
+                    bad.append(m_); changed = True
         if not bad:
             drop(mods, "T1 tie: lake build of the tie modules failed: " + " | ".join(re.findall(r"error: .*", b.stdout)[:3]))
             return
